@@ -1444,12 +1444,20 @@ func c14Gen(t *rapid.T, st *vlib.Stats) c14Case {
 		ntab = rapid.IntRange(0, 2).Draw(t, "ntables0")
 	}
 	sigs := rapid.SliceOfNDistinct(rapid.Custom(c14GenSig), ntab+2, ntab+2, func(s string) string { return s }).Draw(t, "sigs")
+	// rarely a root table with dozens or hundreds of entries: the extra tables are small, packed
+	// and get their contents from their index (no further draws)
+	nbulk := 0
+	if haveReal && rapid.IntRange(0, 39).Draw(t, "bulktables") == 0 {
+		nbulk = rapid.SampledFrom([]int{24, 54, 55, 118, 119, 120, 121, 190, 247, 300}).Draw(t, "nbulk")
+	}
+	drawn := ntab
+	ntab += nbulk
 	c.RootRev = rapid.SampledFrom([]uint8{0, 1, 1, 1, 2, 3}).Draw(t, "rootrev")
 	// with 8-byte entries the tables may live above 4 GiB
 	c.High = haveReal && real.Rev != 0 && rapid.IntRange(0, 2).Draw(t, "high") == 2
 	fadtAt := -1
-	if ntab > 0 && rapid.IntRange(0, 9).Draw(t, "havefadt") < 6 {
-		fadtAt = rapid.IntRange(0, ntab-1).Draw(t, "fadtat")
+	if drawn > 0 && rapid.IntRange(0, 9).Draw(t, "havefadt") < 6 {
+		fadtAt = rapid.IntRange(0, drawn-1).Draw(t, "fadtat")
 	}
 	if c.High && fadtAt >= 0 && openB {
 		// the 32-bit DSDT pointer cannot agree with the others above 4 GiB
@@ -1457,9 +1465,28 @@ func c14Gen(t *rapid.T, st *vlib.Stats) c14Case {
 		fadtAt = -1
 	}
 	c.RootPos = rapid.IntRange(0, ntab).Draw(t, "rootpos")
-	c.Order = rapid.Permutation(c14Iota(ntab)).Draw(t, "order")
+	c.Order = rapid.Permutation(c14Iota(drawn)).Draw(t, "order")
 	if c.Order == nil {
 		c.Order = []int{}
+	}
+	if nbulk > 0 {
+		// the drawn tables are listed somewhere among the extra ones
+		at := rapid.IntRange(0, nbulk).Draw(t, "drawnat")
+		order := make([]int, 0, ntab)
+		for k := 0; k < nbulk; k++ {
+			if k == at {
+				order = append(order, c.Order...)
+			}
+			order = append(order, drawn+k)
+		}
+		if at == nbulk {
+			order = append(order, c.Order...)
+		}
+		c.Order = order
+	}
+	taken := map[string]bool{}
+	for _, sg := range sigs {
+		taken[sg] = true
 	}
 	entry := 8
 	if haveReal && real.Rev == 0 {
@@ -1474,6 +1501,31 @@ func c14Gen(t *rapid.T, st *vlib.Stats) c14Case {
 		}
 		if i == ntab {
 			break
+		}
+		if i >= drawn {
+			k := i - drawn
+			tb := c14Table{Rev: uint8(k % 7)}
+			for n := k; ; n += 1000 {
+				tb.Sig = fmt.Sprintf("Q%03X", n)
+				if !taken[tb.Sig] {
+					break
+				}
+			}
+			taken[tb.Sig] = true
+			tb.Body = make([]byte, k%9)
+			for b := range tb.Body {
+				tb.Body[b] = byte(k*31 + b)
+			}
+			if k%6 == 4 {
+				tb.Corrupt, tb.Delta = 8+k%(tb.length()-8), uint8(1+k%255)
+			}
+			if openC && c14Spill(acur, tb.length()) {
+				st.Exclude("F-C14c: table placed so that it occupies more pages than its length (or its header) alone would (constructed around)")
+				tb.Gap = (c14Page - acur%c14Page) % c14Page
+			}
+			acur += tb.Gap + tb.length()
+			c.Tables = append(c.Tables, tb)
+			continue
 		}
 		tb := c14Table{Sig: sigs[i], Rev: uint8(rapid.IntRange(0, 6).Draw(t, "tabrev"))}
 		if i == fadtAt {
@@ -1490,7 +1542,7 @@ func c14Gen(t *rapid.T, st *vlib.Stats) c14Case {
 	if fadtAt >= 0 {
 		d := &c14Table{Sig: "DSDT", Rev: uint8(rapid.IntRange(1, 2).Draw(t, "dsdtrev"))}
 		if rapid.IntRange(0, 9).Draw(t, "dsdtsig") == 0 {
-			d.Sig = sigs[ntab]
+			d.Sig = sigs[drawn]
 		}
 		c14GenBody(t, d, 0)
 		c14GenCorrupt(t, d)
@@ -1499,7 +1551,7 @@ func c14Gen(t *rapid.T, st *vlib.Stats) c14Case {
 		c.Dsdt = d
 		p := c.Tables[fadtAt].Fadt
 		if p.P40 == "alt" || p.P140 == "alt" || p.P152 == "alt" {
-			a := &c14Table{Sig: sigs[ntab+1], Rev: 1}
+			a := &c14Table{Sig: sigs[drawn+1], Rev: 1}
 			c14GenBody(t, a, 0)
 			c14GenCorrupt(t, a)
 			a.Gap = c14GenGap(t, st, acur, a.length(), openC)
